@@ -31,13 +31,22 @@ deriving DecidableEq, Repr, Inhabited
 
 abbrev CRes (α : Type) := Except CodecErr α
 
+/-- decidable equality of results (core has no instance for `Except`), so that concrete witnesses
+    can be checked by `decide` -/
+instance codecResDecEq {ε α : Type} [DecidableEq ε] [DecidableEq α] : DecidableEq (Except ε α)
+  | .ok a, .ok b => if h : a = b then isTrue (by rw [h]) else isFalse (by intro e; cases e; exact h rfl)
+  | .error a, .error b => if h : a = b then isTrue (by rw [h]) else isFalse (by intro e; cases e; exact h rfl)
+  | .ok _, .error _ => isFalse (by intro e; cases e)
+  | .error _, .ok _ => isFalse (by intro e; cases e)
+
 /-- `s[i:j]` for `0 ≤ i ≤ j` -/
 def slice (s : Str) (i j : Nat) : Str := (s.drop i).take (j - i)
 
-/-- ASCII characters for which `str.isspace()` holds (what `int()` strips): SP, HT LF VT FF CR,
-    and the separators FS GS RS US. -/
+/-- what `int()` strips from an ASCII `str`: SP, HT LF VT FF CR (C `isspace`).  The separators
+    FS GS RS US (0x1c-0x1f), for which `str.isspace()` holds, are NOT stripped from an ASCII string:
+    CPython maps them to a space only on the non-ASCII path (found by correspondence). -/
 def isPySpace (c : Char) : Bool :=
-  c.toNat == 32 || (9 ≤ c.toNat && c.toNat ≤ 13) || (28 ≤ c.toNat && c.toNat ≤ 31)
+  c.toNat == 32 || (9 ≤ c.toNat && c.toNat ≤ 13)
 
 def lstripSp : Str → Str
   | [] => []
